@@ -93,6 +93,9 @@ pub enum Action {
     Critical { ms: u64 },
     Stall { ms: u64 },
     SetWindow { link: usize, window: i32 },
+    /// The uplink's reader task reports a receive error (it signals the loop with an empty
+    /// packet, as after an ICMP error collected by recvmmsg); nothing was received.
+    UplinkRecvError { link: usize },
     /// REG2 replies towards the sender are lost on this path while on.
     DropReg2 { link: usize, on: bool },
     /// The SRT endpoint restarts / rebinds: its datagrams come from a new source port from now on.
@@ -125,6 +128,7 @@ impl Action {
             Action::SetWindow { .. } => "set_window",
             Action::ClientRebind { .. } => "client_rebind",
             Action::DropReg2 { .. } => "drop_reg2",
+            Action::UplinkRecvError { .. } => "uplink_recv_error",
             Action::SetGlue { .. } => "set_glue",
         }
     }
@@ -674,7 +678,8 @@ pub fn shrink(plan: &LPlan) -> Vec<LPlan> {
             | Action::Inject { link, .. }
             | Action::SetWindow { link, .. }
             | Action::SetGlue { link, .. }
-            | Action::DropReg2 { link, .. } => *link == last,
+            | Action::DropReg2 { link, .. }
+            | Action::UplinkRecvError { link } => *link == last,
             _ => false,
         });
         if !names_last {
